@@ -97,7 +97,9 @@ func (w *Worker) resolveExternal(fn *ssa.Function, name string) extFn {
 		if name == "github.com/openconfig/gribigo/rib.init#1" {
 			return noop(fn) // schema unzip
 		}
-		if pp == "github.com/openconfig/gribigo/aft" && base != "init" {
+		if pp == "github.com/openconfig/gribigo/aft" {
+			// the generated package initialiser only builds schema / enum tables (31k instructions);
+			// a read of one of its globals is recorded under stubs_hit as "uninitialised-global:..."
 			return noop(fn)
 		}
 	}
